@@ -336,7 +336,7 @@ PROPS = {
             "a value of the open-level map - by the map invariant a document or a section - so sections occur only directly "
             "under the document or another section, for every heading sequence - and render_heading, its only caller, is "
             "proved to call it with a fresh parentless section only when the current node is the document, a section or "
-            "a temporary root, and to put the title first; the seventeen render methods under the generic "
+            "a temporary root, and to put the title first; the nineteen render methods under the generic "
             "render contract (see C02) attach every node they create exactly once, with its parent set, below the current "
             "node (single parent, no node shared).  The other clauses of C03 (title first, "
             "transitions, unique ids, refid existence, table shape, footnote labels) are not yet under contract and are "
@@ -354,10 +354,11 @@ PROPS = {
             "PROVED (pyvc, relative to the docutils node model and to the assumed induction hypothesis G' for the dynamic "
             "dispatch in render_children): the generic render contract G for render_paragraph, render_bullet_list, "
             "render_list_item, render_em, render_strong, render_span, render_blockquote (without attribution), render_s (containers) and render_inline, render_text, render_softbreak, "
-            "render_hardbreak, render_hr, render_math_inline / _single / _inline_double / _block (leaves): the current node is the same node afterwards; what it already had is kept "
+            "render_hardbreak, render_hr, render_code_inline, render_myst_line_comment, render_math_inline / _single / "
+            "_inline_double / _block (leaves): the current node is the same node afterwards; what it already had is kept "
             "in order; a container attaches exactly ONE new node of its kind there (parent set, line = the token's line) "
             "and renders the token's children while THAT node is the current node; a leaf attaches exactly its leaf nodes, "
-            "text and math tokens with their content verbatim.  Not under G (assumed through G'): headings, code blocks, links, "
+            "text, inline-code and math tokens with their content verbatim.  Not under G (assumed through G'): headings, code blocks, links, "
             "images, tables, directives, roles, targets, footnotes, the ordered-list style table, the Sphinx overrides.  "
             "BOUNDED: the doctree of "
             "generated documents against the markdown-it token tree of the same text and mode - leaf sequence (text, inline "
@@ -369,10 +370,10 @@ PROPS = {
         ),
         assumptions=["markdown-it-py's token tree is the parse of the Markdown (oracle)",
                      "G' (render_children appends below the current node only and restores it) is the induction hypothesis of G: "
-                     "proved for the seventeen methods above given G' for their sub-trees, assumed for every other render method"],
+                     "proved for the nineteen methods above given G' for their sub-trees, assumed for every other render method"],
         trusted_base=["docutils node model and constructors (contracts/assumed_docutils.py, contracts/render.py)",
                       "DocutilsRenderer.copy_attributes (assumed: touches attributes and may append warning nodes to the new node)"],
-        technique="contract-based deductive verification of the generic render contract on seventeen render_* methods; "
+        technique="contract-based deductive verification of the generic render contract on nineteen render_* methods; "
                   "bounded run-time stand-in (token-tree vs doctree comparison on generated documents) for the whole pipeline",
     ),
     "C06": dict(
@@ -411,7 +412,9 @@ PROPS = {
             "nothing else there (the other renderers are reached only otherwise; `project:#x` is forwarded by "
             "render_link_project itself); render_link_anchor attaches exactly ONE reference node, marked id_link, at the "
             "link's own line below the current node (no link is dropped or duplicated at this stage), renders the link text "
-            "inside it unless the link is an autolink, and puts the current node back.  NOT under contract: "
+            "inside it unless the link is an autolink, records the destination with the percent-encoding undone, and puts the "
+            "current node back; render_myst_target (a `(name)=` block target) attaches exactly one target node at its own "
+            "line, named by the normalised text and registered under that name.  NOT under contract: "
             "ResolveAnchorIds.apply (the resolution itself: docutils name/id registries, node attribute dictionaries, "
             "isinstance over node class unions - outside the engine's subset) and the target-registering renderers.  "
             "BOUNDED: documents "
@@ -424,7 +427,7 @@ PROPS = {
         assumptions=["docutils name/id registries (note_explicit_target, ids)",
                      "the other link renderers are seen through G' only (assumed)"],
         trusted_base=["docutils node model", "markdown-it-py token attributes (attrGet)", "re (REGEX_SCHEME as an opaque matcher)"],
-        technique="contract-based deductive verification of the link dispatch (render_link) and render_link_anchor; bounded run-time "
+        technique="contract-based deductive verification of the link dispatch (render_link), render_link_anchor and render_myst_target; bounded run-time "
                   "stand-in (generated target/link documents) for the resolution transform",
     ),
     "C11": dict(
